@@ -580,7 +580,7 @@ func c17Expected(format string, nrec int) (int, string, bool) {
 	}
 	path := c17TmpFile("t."+format, c17FormatData(format, nrec))
 	defer os.RemoveAll(filepath.Dir(path))
-	n, dg, res := c17Digest(path)
+	n, dg, res := c17Digest(path, false)
 	if res != "ok" {
 		dg = ""
 	}
@@ -651,12 +651,14 @@ func c17File(f []string) (string, []Fail) {
 	n := len(decoded)
 	// what the toolkit's own opener delivers
 	xn, xclass := 0, "eof"
+	xopenFailed := false
 	var xdecoded []byte
 	guard(func() string {
 		r, err := obiformats.Ropen(path)
 		if err != nil {
 			if err != obiformats.ErrNoContent {
 				xclass = "other"
+				xopenFailed = true
 			}
 			return ""
 		}
@@ -685,7 +687,7 @@ func c17File(f []string) (string, []Fail) {
 			}
 		}
 	}
-	nrecRead, digest, res := c17Digest(path)
+	nrecRead, digest, res := c17Digest(path, xopenFailed)
 	if res == "ok" && nrecRead == 0 && xn == 0 {
 		res = "empty"
 	}
